@@ -118,6 +118,13 @@ def explicit_cases(scheme, tier, seed):
             cfg.update(param_B=1, param_b=bb, param_identifier_size=2)
             for prof in ([254], [255], [256], [257], [130, 126], [128, 128], [200, 100]):
                 yield ("index_width_boundary", explicit_case(scheme, cfg, prof, seed))
+    if scheme == "CJJ14.Pi2Lev":
+        # one-byte array pointers: the array may hold exactly 256 entries (the largest pointer is 255) and not one more
+        cfg = S.default_config(scheme)
+        cfg.update(param_identifier_size=2, param_B=2, param_b=2, param_B_prime=4, param_b_prime=4)
+        for prof in ([8] * 63 + [3], [8] * 63 + [5], [8] * 62 + [9], [8] * 62 + [7], [8] * 63):
+            if lens_valid(desc, cfg, prof):
+                yield ("pointer_width_boundary", explicit_case(scheme, dict(cfg), prof, seed))
     if scheme == "CGKO06.SSE2":
         # one keyword in more than 256 documents (the per-document counter of the PRP input needs a second byte)
         cfg = small_config(scheme, 0)
